@@ -469,10 +469,12 @@ class _SymRange:
             self.lo, self.hi, self.step = a[0], a[1], 1
         else:
             self.lo, self.hi, self.step = a
-        if not _b.isinstance(self.step, int) or self.step != 1:
+        if not _b.isinstance(self.step, int) or self.step not in (1, -1):
             raise OutOfReach("symbolic range with step")
 
     def __iter__(self):
+        if self.step != 1:      # a descending symbolic range is only supported under a loop contract (loops.py)
+            raise OutOfReach("symbolic range with step")
         i = self.lo
         n = 0
         while True:
@@ -498,7 +500,9 @@ def _sorted_symset(ss):
     c.assume(z3.ForAll([i, j], z3.Implies(z3.And(0 <= i, i < j, j < z3.Length(sq)), sq[i] < sq[j])))
     k = c.fresh("sk", ety.sort())
     c.assume(z3.ForAll([k], z3.Select(ss._ty.dt.dom(ss.term), k) == z3.Contains(sq, z3.Unit(k))))
-    return SymList(Box(sq), ety)
+    r = SymList(Box(sq), ety)
+    r._from_set = ss.copy()         # lets a loop contract with as_set=True enumerate the set instead (loops.for_begin)
+    return r
 
 
 def _already_ordered(lst, key, reverse):
@@ -596,11 +600,24 @@ def hash_(x):
         t = x.t
         m = z3.If(t >= 0, t % _HASH_P, -((-t) % _HASH_P))
         return mk_num(z3.If(m == -1, z3.IntVal(-2), m))
-    if _b.isinstance(x, (SymStr, SymBytes)):
-        # str/bytes hashing is randomised per process: an uninterpreted function of (hash seed, value)
-        r = _PY_HASH["str" if _b.isinstance(x, SymStr) else "bytes"](hash_seed_term(), x.t)
+    if _b.isinstance(x, (SymStr, SymBytes)) or (_b.isinstance(x, (str, bytes)) and _ctx.active() and "hash_seed" in _c().ghost_args):
+        # str/bytes hashing is randomised per process: an uninterpreted function of (hash seed, value); concrete
+        # strings too once a spec has introduced the hash-seed environment (ghost_args["hash_seed"])
+        if _b.isinstance(x, (str, bytes)):
+            kind, vt = ("str", z3.StringVal(x)) if _b.isinstance(x, str) else ("bytes", z3.StringVal(x.decode("latin-1")))
+        else:
+            kind, vt = ("str" if _b.isinstance(x, SymStr) else "bytes"), x.t
+        r = _PY_HASH[kind](hash_seed_term(), vt)
         _c().assume(z3.And(r >= -(1 << 63), r < (1 << 63)))
         return mk_num(r)
+    if _b.isinstance(x, tuple) and _ctx.active() and "hash_seed" in _c().ghost_args:
+        # tuple hash: a fixed combination of the element hashes (uninterpreted), so it reads the hash seed exactly
+        # when an element's hash does
+        comb = z3.Function("py_hash_combine", z3.IntSort(), z3.IntSort(), z3.IntSort())
+        acc = z3.IntVal(len(x))
+        for e in x:
+            acc = comb(acc, num_term(hash_(e))[0])
+        return mk_num(acc)
     if is_sym(x) or _b.isinstance(x, ObjProxy):
         raise OutOfReach("hash() of symbolic value")
     return hash(x)
